@@ -296,3 +296,68 @@ def run(ctx):
             r6.ok(f"{ci.name}.Result: if iter is not None: self.Set_Iter(iter)")
         else:
             r6.fail(f.qualname, "restore-first", f.file, f.lineno, f"{ci.name}.Result", "the result is computed without first restoring the requested iteration")
+
+    # R15.7 the restored iteration's mesh becomes the current mesh
+    from ..flow import Locals
+
+    r7 = ctx.rule("R15.7", "mesh pinning: Save_Iter records the current-mesh index attribute; Set_Iter switches mesh whenever the recorded index differs from that same attribute (and then stores it)", min_instances=2)
+    fsave_i, fset_i = simu.methods["Save_Iter"], simu.methods["Set_Iter"]
+
+    def self_attr(n):
+        return n.attr if isinstance(n, ast.Attribute) and isinstance(n.value, ast.Name) and n.value.id == "self" else None
+
+    r7.instance(fn=fsave_i.qualname)
+    cur = None
+    for n in ast.walk(fsave_i.node):
+        if isinstance(n, ast.Assign) and isinstance(n.targets[0], ast.Subscript) and isinstance(n.targets[0].slice, ast.Constant) and n.targets[0].slice.value == "indexMesh":
+            cur = self_attr(n.value)
+    if cur is None:
+        r7.fail(fsave_i.qualname, "record", fsave_i.file, fsave_i.lineno, "_Simu.Save_Iter", "the iteration does not record the index of the current mesh (`iter['indexMesh'] = self.<current index>`)")
+    else:
+        r7.ok(f"Save_Iter records self.{cur.split('__')[-1]}")
+        # the recorded attribute is the one that follows the mesh actually loaded: it is assigned wherever self.__mesh is replaced from the list
+        loc = Locals(fset_i.node)
+
+        def is_recorded(e):
+            e = loc.resolve(e)
+            return isinstance(e, ast.Subscript) and isinstance(e.slice, ast.Constant) and e.slice.value == "indexMesh"
+
+        r7.instance(fn=fset_i.qualname)
+        calls = []
+
+        def visit(block, guards):
+            for st in block:
+                if isinstance(st, ast.If):
+                    visit(st.body, guards + [(st, True)])
+                    visit(st.orelse, guards + [(st, False)])
+                    continue
+                for n in ast.walk(st):
+                    if isinstance(n, ast.Call) and (self_attr(n.func) or "").endswith("__Update_mesh"):
+                        calls.append((n, st, list(guards), block))
+                for fld in ("body", "orelse", "finalbody"):
+                    sub = getattr(st, fld, None)
+                    if isinstance(sub, list) and sub and isinstance(sub[0], ast.stmt) and not isinstance(st, ast.If):
+                        visit(sub, guards)
+
+        visit(fset_i.node.body, [])
+        bad = None
+        if not calls:
+            bad = "Set_Iter never switches to the mesh of the restored iteration (no __Update_mesh call)"
+        for n, st, guards, block in calls:
+            if not (n.args and is_recorded(n.args[0])):
+                bad = f"`{norm_text(n)}` does not load the mesh index recorded in the iteration"
+                continue
+            for g, branch in guards:
+                t = g.test
+                okg = (branch and isinstance(t, ast.Compare) and len(t.ops) == 1 and isinstance(t.ops[0], ast.NotEq)
+                       and ((is_recorded(t.left) and self_attr(t.comparators[0]) == cur) or (is_recorded(t.comparators[0]) and self_attr(t.left) == cur)))
+                if not okg:
+                    bad = f"the mesh switch is guarded by `{norm_text(t)}`; only `<recorded index> != self.{cur.split('__')[-1]}` (the index of the mesh currently loaded) may skip it"
+            if guards:
+                stores = [s for s in block if isinstance(s, ast.Assign) and any(self_attr(t) == cur for t in s.targets) and is_recorded(s.value)]
+                if not stores:
+                    bad = f"the guarded mesh switch does not store the recorded index in self.{cur.split('__')[-1]}: the next restore compares against a stale index"
+        if bad:
+            r7.fail(fset_i.qualname, "switch", fset_i.file, fset_i.lineno, "_Simu.Set_Iter", bad)
+        else:
+            r7.ok("Set_Iter: if recorded != current: current = recorded; __Update_mesh(recorded)")
